@@ -1,6 +1,6 @@
 (** The scheduling pass keeps the simulation invariant. *)
 From OCV Require Import Base.Prelude Misc.Time Queue.PMap Queue.OWS Queue.OWSOracle Queue.OWSLemmas Queue.OWSModel Queue.OWSStep.
-From OCV Require Import Coroutine.Co Coroutine.CoLemmas Sched.Sched Sched.Pool Sched.PoolOracle Sched.PoolBase Sched.PoolWf Sched.PoolQ Sched.PoolJ Sched.PoolJLemmas Sched.PoolCanon Sched.PoolUnfold Sched.PoolJStep Sched.PoolJLoop Sched.PoolJPass Sched.PoolJHole.
+From OCV Require Import Coroutine.Co Coroutine.CoLemmas Sched.Sched Sched.Pool Sched.PoolOracle Sched.PoolBase Sched.PoolWf Sched.PoolQ Sched.PoolJ Sched.PoolJLemmas Sched.PoolCanon Sched.PoolUnfold Sched.PoolMeasure Sched.PoolJStep Sched.PoolJLoop Sched.PoolCount Sched.PoolBound Sched.PoolJPass Sched.PoolJHole.
 From Coq Require Import ZifyBool ZifyNat.
 Open Scope Z_scope.
 
@@ -42,17 +42,18 @@ Lemma csusp_J : forall fuel tnt x d acc t,
   J mx tnt x d None t -> quiet_off t -> G mx x None -> pw_ts x = [] ->
   exists x' d' evs, csusp fuel x d acc = COk pw x' d' (acc ++ evs) /\
     J mx tnt x' d' None (fold_left pev evs t) /\ G mx x' None /\ pw_ts x' = [] /\ pw_clock x' = pw_clock x /\
-    ((length (sd_suspend d) < fuel)%nat -> forall ts w, In (ts, w) (sd_suspend d') -> pw_clock x < ts).
+    ((length (sd_suspend d) < fuel)%nat -> forall ts w, In (ts, w) (sd_suspend d') -> pw_clock x < ts) /\
+    psi x' d' = psi x d.
 Proof.
   induction fuel as [|f IH]; intros tnt x d acc t HJ Hq HG Hts.
-  - exists x, d, []. cbn [csusp check_suspend fold_left]. rewrite app_nil_r. split; [reflexivity|]. split; [exact HJ|]. split; [exact HG|]. split; [exact Hts|]. split; [reflexivity|]. intro H. exfalso. lia.
+  - exists x, d, []. cbn [csusp check_suspend fold_left]. rewrite app_nil_r. split; [reflexivity|]. split; [exact HJ|]. split; [exact HG|]. split; [exact Hts|]. split; [reflexivity|]. split; [|reflexivity]. intro H. exfalso. lia.
   - rewrite csusp_S. destruct (heap_min (sd_suspend d)) as [[ts i]|] eqn:Emin.
     2:{ exists x, d, []. rewrite app_nil_r. split; [reflexivity|]. cbn [fold_left].
-        split; [exact HJ|]. split; [exact HG|]. split; [exact Hts|]. split; [reflexivity|].
+        split; [exact HJ|]. split; [exact HG|]. split; [exact Hts|]. split; [reflexivity|]. split; [|reflexivity].
         intros _ ts w Hin. apply heap_min_None in Emin. rewrite Emin in Hin. destruct Hin. }
     destruct (pw_clock x <? ts) eqn:Ecl.
     { exists x, d, []. rewrite app_nil_r. split; [reflexivity|]. cbn [fold_left].
-      split; [exact HJ|]. split; [exact HG|]. split; [exact Hts|]. split; [reflexivity|].
+      split; [exact HJ|]. split; [exact HG|]. split; [exact Hts|]. split; [reflexivity|]. split; [|reflexivity].
       intros _ ts' w Hin. pose proof (heap_min_le _ _ _ Emin _ _ Hin). lia. }
     pose proof (heap_min_In _ _ Emin) as Hin.
     destruct (J_open_susp mx tnt x d t ts i HJ Hin) as (k & y & Hk & Est & Hl & Hp & HJ1).
@@ -67,13 +68,16 @@ Proof.
     assert (J mx tnt (k_push 0 x1 i) (d_rm_susp d (ts, i)) None (pev t e)) as HJ3.
     { eapply J_close_push; [exact HJ2 | exact Hk1 | reflexivity | eapply parked_facts_ready; eassumption | left; reflexivity]. }
     destruct (IH tnt (k_push 0 x1 i) (d_rm_susp d (ts, i)) (acc ++ [e]) (pev t e) HJ3)
-      as (x' & d' & evs & Ec & HJ' & HG' & Hts' & Ecl' & Hfut).
+      as (x' & d' & evs & Ec & HJ' & HG' & Hts' & Ecl' & Hfut & Hpsi).
     + unfold quiet_off. rewrite po_pools_pev. exact Hq.
     + apply G_push. unfold x1. apply G_set_live_None; [exact HG | exact Hk | exact Hl | reflexivity].
     + exact Hts.
     + exists x', d', (e :: evs). rewrite Ec. split; [rewrite <- app_assoc; reflexivity|]. cbn [fold_left].
-      split; [exact HJ'|]. split; [exact HG'|]. split; [exact Hts'|]. split; [exact Ecl'|].
-      intros Hlen. apply Hfut. unfold d_rm_susp. cbn [sd_suspend]. rewrite (heap_remove_length _ _ Hin) in Hlen. lia.
+      split; [exact HJ'|]. split; [exact HG'|]. split; [exact Hts'|]. split; [exact Ecl'|]. split.
+      * intros Hlen. apply Hfut. unfold d_rm_susp. cbn [sd_suspend]. rewrite (heap_remove_length _ _ Hin) in Hlen. lia.
+      * rewrite Hpsi. unfold psi, k_push, d_rm_susp. cbn [sd_sys_suspend]. autorewrite with pw.
+        change (rho (set_cq x1 _)) with (rho x1). unfold x1.
+        rewrite (rho_upd_worker_same x i k (with_st k Ready) Hk); [reflexivity | unfold live; cbn [with_st k_st]; rewrite Est; reflexivity | reflexivity].
 Qed.
 
 (** * check_sys *)
@@ -90,18 +94,19 @@ Lemma csys_J : forall fuel tnt x d acc t,
   exists x' d' evs, csys fuel x d acc = COk pw x' d' (acc ++ evs) /\
     J mx tnt x' d' None (fold_left pev evs t) /\ G mx x' None /\ pw_ts x' = [] /\ pw_clock x' = pw_clock x /\
     sd_suspend d' = sd_suspend d /\
-    ((length (sd_sys_suspend d) < fuel)%nat -> forall ts w, In (ts, w) (sd_sys_suspend d') -> pw_clock x < ts).
+    ((length (sd_sys_suspend d) < fuel)%nat -> forall ts w, In (ts, w) (sd_sys_suspend d') -> pw_clock x < ts) /\
+    psi x' d' <= psi x d.
 Proof.
   induction fuel as [|f IH]; intros tnt x d acc t HJ Hq HG Hts.
   - exists x, d, []. cbn [csys check_sys fold_left]. rewrite app_nil_r. split; [reflexivity|].
-    split; [exact HJ|]. split; [exact HG|]. split; [exact Hts|]. split; [reflexivity|]. split; [reflexivity|]. intro H. exfalso. lia.
+    split; [exact HJ|]. split; [exact HG|]. split; [exact Hts|]. split; [reflexivity|]. split; [reflexivity|]. split; [|lia]. intro H. exfalso. lia.
   - rewrite csys_S. destruct (heap_min (sd_sys_suspend d)) as [[ts i]|] eqn:Emin.
     2:{ exists x, d, []. rewrite app_nil_r. split; [reflexivity|]. cbn [fold_left].
-        split; [exact HJ|]. split; [exact HG|]. split; [exact Hts|]. split; [reflexivity|]. split; [reflexivity|].
+        split; [exact HJ|]. split; [exact HG|]. split; [exact Hts|]. split; [reflexivity|]. split; [reflexivity|]. split; [|lia].
         intros _ ts w Hin. apply heap_min_None in Emin. rewrite Emin in Hin. destruct Hin. }
     destruct (pw_clock x <? ts) eqn:Ecl.
     { exists x, d, []. rewrite app_nil_r. split; [reflexivity|]. cbn [fold_left].
-      split; [exact HJ|]. split; [exact HG|]. split; [exact Hts|]. split; [reflexivity|]. split; [reflexivity|].
+      split; [exact HJ|]. split; [exact HG|]. split; [exact Hts|]. split; [reflexivity|]. split; [reflexivity|]. split; [|lia].
       intros _ ts' w Hin. pose proof (heap_min_le _ _ _ Emin _ _ Hin). lia. }
     pose proof (heap_min_In _ _ Emin) as Hin.
     destruct (J_open_sys mx tnt x d t ts i HJ Hin) as (k & y & n & Hk & Est & Hl & Hp & Hmap & HJ1).
@@ -109,20 +114,24 @@ Proof.
     unfold k_state. rewrite Hk. cbn [option_map]. rewrite Est.
     destruct (J_k_change mx tnt x (d_rm_sys d (ts, i)) i t k (Syscall y n STimeout) HJ1 Hq Hk Hl ltac:(discriminate))
       as (x1 & Ekc & HJ2 & Hm2 & Hk2 & HG2a & _ & _).
+    destruct (k_change_rho x i k (Syscall y n STimeout) x1 _ (jp_pools _ _ _ (j_p _ _ _ _ _ _ _ HJ1)) (jp_cur _ _ _ (j_p _ _ _ _ _ _ _ HJ1)) Hk Hl Ekc) as [Hr2 _].
+    cbn [terminal creator_grows] in Hr2.
     rewrite Ekc. rewrite Est in HJ2 |- *. set (e := EL 0 i (CbChanged (Syscall y n STimeout)) (Syscall y n (SSuspend ts))) in *.
     destruct Hm2 as [M1 M2 M3 M4 M5 M6].
     assert (J mx tnt (k_push 0 x1 i) (d_rm_sys d (ts, i)) None (pev t e)) as HJ3.
     { eapply J_close_push; [exact HJ2 | exact Hk2 | reflexivity | eapply parked_facts_timeout; eassumption | right; right; exists y, n; reflexivity]. }
     destruct (IH tnt (k_push 0 x1 i) (d_rm_sys d (ts, i)) (acc ++ [e]) (pev t e) HJ3)
-      as (x' & d' & evs & Ec & HJ' & HG' & Hts' & Ecl' & Esu & Hfut).
+      as (x' & d' & evs & Ec & HJ' & HG' & Hts' & Ecl' & Esu & Hfut & Hpsi).
     + unfold quiet_off. rewrite po_pools_pev. exact Hq.
     + apply G_push, HG2a. reflexivity.
     + unfold k_push. autorewrite with pw. congruence.
     + exists x', d', (e :: evs). rewrite Ec. split; [rewrite <- app_assoc; reflexivity|]. cbn [fold_left].
       split; [exact HJ'|]. split; [exact HG'|]. split; [exact Hts'|].
-      split; [rewrite Ecl'; unfold k_push; autorewrite with pw; exact M4|]. split; [exact Esu|].
-      intros Hlen ts' w' Hin'. rewrite <- M4. apply (Hfut ltac:(unfold d_rm_sys; cbn [sd_sys_suspend]; rewrite (heap_remove_length _ _ Hin) in Hlen; lia) ts' w').
-      exact Hin'.
+      split; [rewrite Ecl'; unfold k_push; autorewrite with pw; exact M4|]. split; [exact Esu|]. split.
+      * intros Hlen ts' w' Hin'. rewrite <- M4. apply (Hfut ltac:(unfold d_rm_sys; cbn [sd_sys_suspend]; rewrite (heap_remove_length _ _ Hin) in Hlen; lia) ts' w').
+        exact Hin'.
+      * etransitivity; [exact Hpsi|]. unfold psi, k_push, d_rm_sys. cbn [sd_sys_suspend]. autorewrite with pw.
+        change (rho (set_cq x1 _)) with (rho x1). rewrite M1. pose proof (heap_remove_length _ _ Hin) as Hlen. lia.
 Qed.
 
 (** * check_ready *)
@@ -131,17 +140,19 @@ Lemma cready_J tnt x d acc t :
   exists x' d' evs, cready x d acc = COk pw x' d' (acc ++ evs) /\
     J mx tnt x' d' None (fold_left pev evs t) /\ G mx x' None /\ pw_ts x' = [] /\ pw_clock x' = pw_clock x /\
     (forall ts w, In (ts, w) (sd_suspend d') -> pw_clock x < ts) /\
-    (forall ts w, In (ts, w) (sd_sys_suspend d') -> pw_clock x < ts).
+    (forall ts w, In (ts, w) (sd_sys_suspend d') -> pw_clock x < ts) /\
+    psi x' d' <= psi x d.
 Proof.
   intros HJ Hq HG Hts. rewrite cready_eq.
-  destruct (csusp_J (S (length (sd_suspend d))) tnt x d acc t HJ Hq HG Hts) as (x1 & d1 & e1 & E1 & HJ1 & HG1 & Hts1 & Ec1 & F1).
+  destruct (csusp_J (S (length (sd_suspend d))) tnt x d acc t HJ Hq HG Hts) as (x1 & d1 & e1 & E1 & HJ1 & HG1 & Hts1 & Ec1 & F1 & P1).
   rewrite E1.
   destruct (csys_J (S (length (sd_sys_suspend d1))) tnt x1 d1 (acc ++ e1) (fold_left pev e1 t) HJ1 (quiet_off_fold _ _ Hq) HG1 Hts1)
-    as (x2 & d2 & e2 & E2 & HJ2 & HG2 & Hts2 & Ec2 & Esu & F2).
+    as (x2 & d2 & e2 & E2 & HJ2 & HG2 & Hts2 & Ec2 & Esu & F2 & P2).
   rewrite E2. exists x2, d2, (e1 ++ e2). rewrite app_assoc, fold_pev_app. split; [reflexivity|].
-  split; [exact HJ2|]. split; [exact HG2|]. split; [exact Hts2|]. split; [congruence|]. split.
+  split; [exact HJ2|]. split; [exact HG2|]. split; [exact Hts2|]. split; [congruence|]. split; [|split].
   - rewrite Esu. apply F1. lia.
   - intros ts w Hin. rewrite <- Ec1. apply (F2 ltac:(lia) ts w Hin).
+  - lia.
 Qed.
 
 (** * a cancelled worker is dropped *)
@@ -155,17 +166,27 @@ Lemma Jc_cc_shrink tnt cc x d h t w k :
   Jc mx tnt cc x d h t -> get_worker x w = Some k -> live k = false -> Jc mx tnt (remove_nat w cc) x d h t.
 Proof.
   intros [HQ HL HP HS HT HR HW] Hk Hl. constructor; try assumption.
-  destruct HT as [Hlen Hq Hta Hhold Hinj Hmode Htb Hte Ht3 Htf Hrtnd Hrt Hrts Hrt3 Hcc Hc0 Hctb Hsuf Hfin]. constructor; try assumption.
+  destruct HT as [Hlen Hq Hta Hhold Hinj Hmode Htb Hte Ht3 Htf Hrtnd Hrt Hrts Hrt3 Hcc Hc0 Hctb Hsuf Hfin Hccnd Hccb]. constructor; try assumption.
   - intros v kv i rest Hv Hlv Hin Hkv. eapply Htf; try eassumption. eapply remove_nat_In, Hin.
   - intros v kv i rest Hv Hlv Hkv Hc1. apply remove_nat_In_other; [|eapply Hcc; eassumption].
     intros ->. unfold get_worker in Hk. rewrite Hk in Hv. injection Hv as <-. congruence.
+  - apply remove_nat_NoDup, Hccnd.
+  - intros v Hv. apply Hccb. eapply remove_nat_In, Hv.
+Qed.
+
+Lemma remove_nat_length w l : In w l -> S (length (remove_nat w l)) = length l.
+Proof.
+  induction l as [|a l IH]; cbn [remove_nat In]; [tauto|]. destruct (Nat.eqb w a) eqn:E.
+  - intros _. reflexivity.
+  - apply Nat.eqb_neq in E. intros [H|H]; [congruence|]. cbn [length]. rewrite (IH H). reflexivity.
 Qed.
 
 Lemma J_drop tnt x d w t k :
   J mx tnt x d (Some w) t -> quiet_off t -> get_worker x w = Some k -> live k = true -> In w (pw_cancel_cos x) ->
   exists x3, k_change (k_uncancel x w) w Cancelled = (x3, [EL 0 w (CbChanged Cancelled) (k_st k)]) /\
     J mx tnt x3 (d_gone d w) None (pev t (EL 0 w (CbChanged Cancelled) (k_st k))) /\ G mx x3 None /\
-    pw_ts x3 = pw_ts x /\ pw_clock x3 = pw_clock x.
+    pw_ts x3 = pw_ts x /\ pw_clock x3 = pw_clock x /\
+    rho x3 <= rho x /\ S (length (pw_cancel_cos x3)) = length (pw_cancel_cos x).
 Proof.
   intros HJ Hq Hk Hl Hin.
   pose proof (Jc_uncancel_frame tnt _ x d (Some w) t w HJ) as HJu.
@@ -178,7 +199,10 @@ Proof.
   { unfold J. rewrite M1. unfold k_uncancel at 1. autorewrite with pw.
     eapply Jc_cc_shrink; [exact HJ3 | exact Hk3 | reflexivity]. }
   split; [eapply (J_close_dead mx tnt x3 d (d_gone d w) w _ _ HJ3' Hk3); reflexivity|].
-  split; [apply HGa; reflexivity|]. split; [rewrite M2; reflexivity | rewrite M4; reflexivity].
+  split; [apply HGa; reflexivity|]. split; [rewrite M2; reflexivity|]. split; [rewrite M4; reflexivity|].
+  destruct (k_change_rho (k_uncancel x w) w k Cancelled x3 _ (jp_pools _ _ _ (j_p _ _ _ _ _ _ _ HJ)) (jp_cur _ _ _ (j_p _ _ _ _ _ _ _ HJ)) Hku Hl E) as [Hr _].
+  cbn [terminal creator_grows] in Hr. change (rho (k_uncancel x w)) with (rho x) in Hr. split; [lia|].
+  rewrite M1. unfold k_uncancel. autorewrite with pw. apply remove_nat_length, Hin.
 Qed.
 
 (** * do_schedule *)
@@ -187,21 +211,35 @@ Definition quiescent (x : pw) (d : sdata) : Prop :=
   (forall ts w, In (ts, w) (sd_suspend d) -> pw_clock x < ts) /\
   (forall ts w, In (ts, w) (sd_sys_suspend d) -> pw_clock x < ts).
 
-Definition dsched_ok (tnt : bool) (t : potr) (acc : list ev) (res : pw * sdata * pass_res * list ev) : Prop :=
+Definition dsched_ok (tnt : bool) (t : potr) (acc : list ev) (fuel : nat) (psi0 c0 : Z) (res : pw * sdata * pass_res * list ev) : Prop :=
   let '(x', d', r, acc') := res in
   exists evs, acc' = acc ++ evs /\
     match r with
-    | PassOk l _ => J mx tnt x' d' None (fold_left pev evs t) /\ G mx x' None /\ pw_ts x' = [] /\ 0 <= l /\ (0 < l -> quiescent x' d')
-    | PassErr => exists x3 dd w, x' = set_spin x3 /\ J mx tnt x3 dd (Some w) (fold_left pev evs t)
+    | PassOk l _ => J mx tnt x' d' None (fold_left pev evs t) /\ G mx x' None /\ pw_ts x' = [] /\ 0 <= l /\ (0 < l -> quiescent x' d') /\
+                    c0 <= pw_clock x'
+    | PassErr => False
     | PassUnwound => False
-    | PassDiverged => J mx tnt x' d' None (fold_left pev evs t) /\ pw_ts x' = []
+    | PassDiverged => J mx tnt x' d' None (fold_left pev evs t) /\ pw_ts x' = [] /\ Z.of_nat fuel <= psi0
     end.
 
-Lemma dsched_ok_chain tnt t acc e res : dsched_ok tnt (fold_left pev e t) (acc ++ e) res -> dsched_ok tnt t acc res.
+Lemma dsched_ok_chain tnt t acc e fuel psi0 c0 res :
+  dsched_ok tnt (fold_left pev e t) (acc ++ e) fuel psi0 c0 res -> dsched_ok tnt t acc fuel psi0 c0 res.
 Proof.
   destruct res as [[[x' d'] r] acc']. cbn [dsched_ok]. intros (evs & -> & H). exists (e ++ evs).
   rewrite app_assoc, fold_pev_app. split; [reflexivity | exact H].
 Qed.
+
+Lemma dsched_ok_step tnt t acc f psi1 psi0 c1 c0 res :
+  dsched_ok tnt t acc f psi1 c1 res -> psi1 + 1 <= psi0 -> c0 <= c1 -> dsched_ok tnt t acc (S f) psi0 c0 res.
+Proof.
+  destruct res as [[[x' d'] r] acc']. cbn [dsched_ok]. intros (evs & -> & H) Hle Hc. exists evs. split; [reflexivity|].
+  destruct r; try exact H.
+  - destruct H as (H1 & H2 & H3 & H4 & H5 & H6). repeat (split; [assumption|]). lia.
+  - destruct H as (H1 & H2 & H3). split; [exact H1|]. split; [exact H2|]. lia.
+Qed.
+
+Lemma psi_nonneg x d : 0 <= psi x d.
+Proof. unfold psi. pose proof (rho_nonneg x). lia. Qed.
 
 Lemma placed_parked k i rest :
   k_dead k = false -> k_tpool k = 0%nat -> k_task k = Some (i, rest) ->
@@ -215,14 +253,14 @@ Qed.
 
 Lemma dsched_J : forall fuel tnt x d deadline results acc t,
   J mx tnt x d None t -> quiet_off t -> G mx x None -> pw_ts x = [] ->
-  dsched_ok tnt t acc (dsched fuel x d deadline results acc).
+  dsched_ok tnt t acc fuel (psi x d) (pw_clock x) (dsched fuel x d deadline results acc).
 Proof.
   induction fuel as [|f IH]; intros tnt x d deadline results acc t HJ Hq HG Hts.
-  - cbn [dsched do_schedule dsched_ok]. exists []. rewrite app_nil_r. cbn [fold_left]. auto.
+  - cbn [dsched do_schedule dsched_ok]. exists []. rewrite app_nil_r. cbn [fold_left]. pose proof (psi_nonneg x d). auto.
   - rewrite dsched_S. cbv zeta. destruct (sat_sub deadline (pw_clock x) =? 0) eqn:Elft.
     { cbn [dsched_ok]. exists []. rewrite app_nil_r. cbn [fold_left]. split; [reflexivity|].
-      split; [exact HJ|]. split; [exact HG|]. split; [exact Hts|]. split; [lia|]. intro H. exfalso. lia. }
-    destruct (cready_J tnt x d acc t HJ Hq HG Hts) as (x1 & d1 & e1 & Ecr & HJ1 & HG1 & Hts1 & Ecl1 & F1 & F2).
+      split; [exact HJ|]. split; [exact HG|]. split; [exact Hts|]. split; [lia|]. split; [|lia]. intro H. exfalso. lia. }
+    destruct (cready_J tnt x d acc t HJ Hq HG Hts) as (x1 & d1 & e1 & Ecr & HJ1 & HG1 & Hts1 & Ecl1 & F1 & F2 & P1).
     rewrite Ecr. apply (dsched_ok_chain tnt t acc e1). set (t1 := fold_left pev e1 t) in *.
     assert (quiet_off t1) as Hq1 by (apply quiet_off_fold, Hq).
     unfold k_pop. pose proof (jq_c _ _ (j_q _ _ _ _ _ _ _ HJ1)) as HQc.
@@ -232,38 +270,52 @@ Proof.
       destruct (J_open_cq mx tnt x1 d1 t1 q z HJ1 HQ' Hcnt) as (w & k & -> & Hk & Hl & Hp & Hres & HJ2).
       rewrite Nat2Z.id. set (x2 := set_cq x1 q) in *.
       assert (get_worker x2 w = Some k) as Hk2 by exact Hk.
+      assert (psi x2 d1 = psi x1 d1) as Ep2 by reflexivity.
       unfold k_cancelled. destruct (mem_nat w (pw_cancel_cos x2)) eqn:Ecc.
       * (* dropped *)
         apply mem_nat_In in Ecc.
-        destruct (J_drop tnt x2 d1 w t1 k HJ2 Hq1 Hk2 Hl Ecc) as (x3 & Ekc & HJ3 & HG3 & Hts3 & Ecl3).
-        rewrite Ekc. apply (dsched_ok_chain tnt t1 (acc ++ e1) [EL 0 w (CbChanged Cancelled) (k_st k)]). apply IH.
+        destruct (J_drop tnt x2 d1 w t1 k HJ2 Hq1 Hk2 Hl Ecc) as (x3 & Ekc & HJ3 & HG3 & Hts3 & Ecl3 & Hr3 & Hc3).
+        rewrite Ekc. apply (dsched_ok_chain tnt t1 (acc ++ e1) [EL 0 w (CbChanged Cancelled) (k_st k)]).
+        eapply dsched_ok_step; [apply IH| |].
         -- exact HJ3.
         -- unfold quiet_off. cbn [fold_left]. rewrite po_pools_pev. exact Hq1.
         -- exact HG3.
         -- rewrite Hts3. exact Hts1.
+        -- unfold psi in *. unfold d_gone. cbn [sd_sys_suspend]. lia.
+        -- rewrite Ecl3. change (pw_clock x2) with (pw_clock x1). lia.
       * (* resumed *)
         apply mem_nat_false in Ecc.
         assert (parked_ok x2 w) as Hpk.
         { destruct Hp as (Hd & Ht & m & Hm & Hb). exists k, m. repeat (split; [assumption|]). exact Hb. }
         destruct (k_resume_J mx tnt x2 d1 w t1 HJ2 Hq1 ltac:(apply G_None_any, G_set_cq, HG1) Hpk Ecc Hts1)
-          as (x3 & r & e & Ekr & Hok).
-        rewrite Ekr. destruct Hok as [(x3' & -> & -> & HJ3)|(HJ3 & HG3 & Hts3 & Ecc3 & (k' & Hk' & -> & Hpl))].
-        { cbn [dsched_ok]. exists e. split; [reflexivity|]. exists x3', d1, w. auto. }
-        apply (dsched_ok_chain tnt t1 (acc ++ e1) e).
+          as (x3 & r & e & Ekr & (HJ3 & HG3 & Hts3 & Ecc3 & (k' & Hk' & -> & Hpl) & Hr3 & Hc3)).
+        assert (pw_clock x <= pw_clock x3) as Hc3' by (change (pw_clock x2) with (pw_clock x1) in Hc3; lia).
+        rewrite Ekr. apply (dsched_ok_chain tnt t1 (acc ++ e1) e).
         assert (quiet_off (fold_left pev e t1)) as Hq3 by (apply quiet_off_fold, Hq1).
+        assert (rho x3 + 1 + sys_cost (ROk (k_st k')) + 2 * Z.of_nat (length (sd_sys_suspend d1)) + 2 * Z.of_nat (length (pw_cancel_cos x3)) <= psi x d) as Hpsi3.
+        { unfold psi in *. rewrite Ecc3. lia. }
         destruct Hpl as [(Hl' & v & Est)|(Hl' & Hd' & Ht' & i & rest & Htask & Hc)].
         -- (* completed *)
-           rewrite Est. apply IH; [|exact Hq3 | exact HG3 | exact Hts3].
-           eapply (J_close_dead mx tnt x3 d1 d1 w _ _ HJ3 Hk' Hl'); reflexivity.
+           rewrite Est in *. eapply dsched_ok_step; [apply IH; [|exact Hq3 | exact HG3 | exact Hts3]| |].
+           ++ eapply (J_close_dead mx tnt x3 d1 d1 w _ _ HJ3 Hk' Hl'); reflexivity.
+           ++ unfold psi in *. cbn [sys_cost] in Hpsi3. lia.
+           ++ exact Hc3'.
         -- pose proof (placed_parked k' i rest Hd' Ht' Htask Hc) as Hp'.
-           destruct Hc as [(ts & Est & Hb)|(y & n & ts & Est & Hb)]; rewrite Est.
+           destruct Hc as [(ts & Est & Hb)|(y & n & ts & Est & Hb)]; rewrite Est in *.
            ++ destruct (pw_clock x3 <? ts) eqn:Ects.
-              ** apply IH; [|exact Hq3 | exact HG3 | exact Hts3].
-                 eapply (J_close_susp mx tnt x3 d1 w _ k' 0 ts HJ3 Hk' Est Hp').
-              ** apply IH; [|exact Hq3 | apply G_push, HG3 | exact Hts3].
-                 eapply (J_close_push mx tnt x3 d1 w _ k' HJ3 Hk' Hl' Hp'). right. left. exists 0, ts. split; [exact Est | lia].
-           ++ apply IH; [|exact Hq3 | exact HG3 | exact Hts3].
-              eapply (J_close_sys mx tnt x3 d1 w _ k' y n ts HJ3 Hk' Est Hp').
+              ** eapply dsched_ok_step; [apply IH; [|exact Hq3 | exact HG3 | exact Hts3]| |].
+                 --- eapply (J_close_susp mx tnt x3 d1 w _ k' 0 ts HJ3 Hk' Est Hp').
+                 --- unfold psi, d_add_susp in *. cbn [sd_sys_suspend sys_cost] in *. lia.
+                 --- exact Hc3'.
+              ** eapply dsched_ok_step; [apply IH; [|exact Hq3 | apply G_push, HG3 | exact Hts3]| |].
+                 --- eapply (J_close_push mx tnt x3 d1 w _ k' HJ3 Hk' Hl' Hp'). right. left. exists 0, ts. split; [exact Est | lia].
+                 --- unfold psi in *. change (rho (k_push 0 x3 w)) with (rho x3). change (pw_cancel_cos (k_push 0 x3 w)) with (pw_cancel_cos x3).
+                     cbn [sys_cost] in Hpsi3. lia.
+                 --- exact Hc3'.
+           ++ eapply dsched_ok_step; [apply IH; [|exact Hq3 | exact HG3 | exact Hts3]| |].
+              ** eapply (J_close_sys mx tnt x3 d1 w _ k' y n ts HJ3 Hk' Est Hp').
+              ** unfold psi, d_add_sys in *. cbn [sd_sys_suspend sys_cost] in *. rewrite app_length. cbn [length]. lia.
+              ** exact Hc3'.
     + (* nothing is ready: the pass ends *)
       cbn [dsched_ok]. exists []. rewrite app_nil_r. cbn [fold_left]. split; [reflexivity|].
       assert (J mx tnt (set_cq x1 q) d1 None t1) as HJ2.
@@ -271,7 +323,7 @@ Proof.
         - rewrite Hnil'. rewrite <- Hnil. apply (j_l _ _ _ _ _ _ _ HJ1).
         - apply (j_t _ _ _ _ _ _ _ HJ1). }
       split; [exact HJ2|]. split; [apply G_set_cq, HG1|]. split; [exact Hts1|].
-      unfold sat_sub in *. split; [lia|]. intros _. unfold quiescent. autorewrite with pw. rewrite Ecl1. auto.
+      unfold sat_sub in *. split; [lia|]. split; [|autorewrite with pw; lia]. intros _. unfold quiescent. autorewrite with pw. rewrite Ecl1. auto.
 Qed.
 
 (** * the whole pass *)
@@ -298,37 +350,59 @@ Proof.
   intro Hp. destruct (try_grow_cases x Hp) as [[-> _]|(_ & _ & Hg)]; [reflexivity|]. rewrite (gr_pool _ _ Hg). reflexivity.
 Qed.
 
+(** the potential of a pass is below the fuel the model gives it *)
+Lemma NoDup_bounded_length (l : list nat) n : NoDup l -> (forall v, In v l -> (v < n)%nat) -> (length l <= n)%nat.
+Proof.
+  intros Hnd Hb. rewrite <- (seq_length n 0). apply NoDup_incl_length; [exact Hnd|]. intros v Hv. apply in_seq. specialize (Hb v Hv). lia.
+Qed.
+
+Lemma psi_bound tnt x d t : J mx tnt x d None t -> psi x d < Z.of_nat (pass_fuel_p x).
+Proof.
+  intro HJ. pose proof (rho_bound mx tnt x d None t HJ) as Hr. pose proof (j_l _ _ _ _ _ _ _ HJ) as HL. pose proof (j_t _ _ _ _ _ _ _ HJ) as HT.
+  assert (length (pw_cancel_cos x) <= length (pw_workers x))%nat as Hc.
+  { apply NoDup_bounded_length; [apply (jt_ccnd _ _ _ _ _ _ _ _ HT) | apply (jt_ccb _ _ _ _ _ _ _ _ HT)]. }
+  assert (length (sd_sys_suspend d) <= length (pw_workers x))%nat as Hs.
+  { rewrite <- (map_length snd). apply NoDup_bounded_length.
+    - apply (NoDup_count_occ Nat.eq_dec). intro w. destruct (in_dec Nat.eq_dec w (map snd (sd_sys_suspend d))) as [Hin|Hnin].
+      + apply in_map_iff in Hin as ([ts v] & Ev & Hin). cbn [snd] in Ev. subst v.
+        destruct (JL_in_sys _ _ _ _ _ _ HL Hin) as (k & y & n & _ & _ & _ & _ & H1 & _). unfold hpc in H1. lia.
+      + rewrite (proj1 (count_occ_not_In Nat.eq_dec _ _) Hnin). lia.
+    - intros v Hv. apply in_map_iff in Hv as ([ts v'] & Ev & Hin). cbn [snd] in Ev. subst v'. apply (jl_sys _ _ _ _ _ HL _ _ Hin). }
+  unfold psi, pass_fuel_p, wfuel. fold (btotal (pw_tbody x)).
+  set (B := btotal (pw_tbody x)) in *. set (W := length (pw_workers x)) in *. set (T := length (pw_tbody x)) in *.
+  assert (B = 0 \/ 1 <= T)%nat as HBT.
+  { unfold B, T, btotal. destruct (pw_tbody x); [left; reflexivity | right; cbn [length]; lia]. }
+  nia.
+Qed.
+
 Definition ppass_ok (tnt : bool) (x : pw) (t : potr) (res : pw * pres * list ev) : Prop :=
   let '(x', r, e) := res in
   match r with
-  | PLeft l => Jop tnt x' (fold_left pev e t) /\ G mx x' None /\ 0 <= l /\ (0 < l -> quiescent x' (p_sd (get_pool x' 0)))
+  | PLeft l => Jop tnt x' (fold_left pev e t) /\ G mx x' None /\ 0 <= l /\ (0 < l -> quiescent x' (p_sd (get_pool x' 0))) /\
+               pw_clock x <= pw_clock x'
   | PErrStopped => x' = x /\ e = [] /\ p_state (get_pool x 0) = PStopped
-  | PDiverged => exists ws, JW ws (fold_left pev e t) tnt
-  | PErr | PUnwound => False
+  | PDiverged | PErr | PUnwound => False
   end.
 
 Lemma ppass_tail_J tnt x0 x1 t deadline :
-  J mx tnt x1 (p_sd (get_pool x1 0)) None t -> quiet_off t -> G mx x1 None -> pw_ts x1 = [] ->
+  J mx tnt x1 (p_sd (get_pool x1 0)) None t -> quiet_off t -> G mx x1 None -> pw_ts x1 = [] -> pw_clock x0 <= pw_clock x1 ->
   ppass_ok tnt x0 t (let '(x2, d2, r, e) := dsched (pass_fuel_p x1) x1 (p_sd (get_pool x1 0)) deadline [] [] in ppass_tail x2 d2 r e).
 Proof.
-  intros HJ1 Hq HG1 Hts1.
+  intros HJ1 Hq HG1 Hts1 Hc01.
   pose proof (dsched_J (pass_fuel_p x1) tnt x1 (p_sd (get_pool x1 0)) deadline [] [] t HJ1 Hq HG1 Hts1) as Hok.
+  pose proof (psi_bound tnt x1 _ t HJ1) as Hpb.
   destruct (dsched (pass_fuel_p x1) x1 (p_sd (get_pool x1 0)) deadline [] []) as [[[x2 d2] r] e].
   cbn [dsched_ok] in Hok. destruct Hok as (evs & Ee & Hok). cbn [app] in Ee. subst e. unfold ppass_tail. cbv zeta.
-  destruct r as [l rs| | |].
-  - destruct Hok as (HJ2 & HG2 & Hts2 & Hl & Hqs).
+  destruct r as [l rs| | |]; try contradiction.
+  - destruct Hok as (HJ2 & HG2 & Hts2 & Hl & Hqs & Hc2).
     pose proof (J_with_sd tnt x2 d2 None _ d2 HJ2) as HJ3.
     assert (length (pw_pools x2) = 1%nat) as Hp2 by apply (jp_pools _ _ _ (j_p _ _ _ _ _ _ _ HJ2)).
     assert (get_pool (upd_pool x2 0 (p_with_sd d2)) 0 = p_with_sd d2 (get_pool x2 0)) as Eq by (apply get_pool_upd_pool_same; lia).
     rewrite (jp_spin _ _ _ (j_p _ _ _ _ _ _ _ HJ3)). cbn [ppass_ok]. unfold Jop. rewrite Eq. autorewrite with pw.
     split; [split; [exact HJ3 | exact Hts2]|]. split.
     + unfold G in *. autorewrite with pw. rewrite Eq. autorewrite with pw. exact HG2.
-    + split; [exact Hl|]. intro Hpos. destruct (Hqs Hpos) as (Q1' & Q2 & Q3). split; [exact Q1' | split; assumption].
-  - destruct Hok as (x3 & dd & w & -> & HJ3). autorewrite with pw. cbn [ppass_ok].
-    exists (pw_workers x3). apply (j_w _ _ _ _ _ _ _ HJ3).
-  - contradiction.
-  - destruct Hok as (HJ2 & Hts2). destruct (pw_spin (upd_pool x2 0 (p_with_sd d2))); cbn [ppass_ok];
-      exists (pw_workers x2); apply (j_w _ _ _ _ _ _ _ HJ2).
+    + split; [exact Hl|]. split; [|lia]. intro Hpos. destruct (Hqs Hpos) as (Q1' & Q2 & Q3). split; [exact Q1' | split; assumption].
+  - destruct Hok as (_ & _ & Hf). lia.
 Qed.
 
 Lemma ppass_J tnt x t deadline :
@@ -344,8 +418,10 @@ Proof.
   assert (pw_ts x1 = []) as Hts1.
   { unfold x1. autorewrite with pw. rewrite (sm_ts _ _ (try_grow_misc x (jp_pools _ _ _ (j_p _ _ _ _ _ _ _ HJ)))). exact Hts. }
   destruct (p_state (get_pool x 0)) eqn:Est.
-  - apply ppass_tail_J; assumption.
-  - apply ppass_tail_J; assumption.
+  - apply ppass_tail_J; try assumption. unfold x1. autorewrite with pw.
+    rewrite (sm_clock _ _ (try_grow_misc x (jp_pools _ _ _ (j_p _ _ _ _ _ _ _ HJ)))). lia.
+  - apply ppass_tail_J; try assumption. unfold x1. autorewrite with pw.
+    rewrite (sm_clock _ _ (try_grow_misc x (jp_pools _ _ _ (j_p _ _ _ _ _ _ _ HJ)))). lia.
   - cbn [ppass_ok]. auto.
 Qed.
 
